@@ -16,6 +16,7 @@ structure InvX (x : Option Nat) (s : State) : Prop where
   valid : ∀ id h, (id, h) ∈ s.cache → h < s.heap.length
   wf : ∀ id h, (id, h) ∈ s.cache → some id ≠ x → (s.obj h).id = id
   coh : ∀ id h, (id, h) ∈ s.cache → some id ≠ x → ∃ rec, lookup id s.store = some rec ∧ ess rec = ess (s.obj h)
+  uniq : ∀ id h1 h2, (id, h1) ∈ s.cache → (id, h2) ∈ s.cache → h1 = h2
 
 /-- flushing any entry and dropping its key keeps the invariant. -/
 theorem inv_flush_drop (x : Option Nat) (s : State) (id h : Nat) (hi : InvX x s) :
@@ -29,6 +30,7 @@ theorem inv_flush_drop (x : Option Nat) (s : State) (id h : Nat) (hi : InvX x s)
     refine ⟨rec, ?_, he⟩
     simp only [saveRec]
     rw [lookup_insert_ne _ _ hne]; exact hl
+  · intro id' h1 h2 hm1 hm2; exact hi.uniq id' h1 h2 (mem_erase hm1).1 (mem_erase hm2).1
 
 theorem sweep_inv (x : Option Nat) (cfg : Cfg) (l : List (Nat × Nat)) (s : State) (hi : InvX x s) :
     InvX x (sweep cfg s l).1 := by
@@ -107,5 +109,6 @@ theorem inv_touch (x : Option Nat) (s : State) (h : Nat) (o : Sess) (hid : o.id 
     by_cases hh : h' = h
     · subst hh; rw [obj_setObj_self s h' o hv, he]; exact her
     · rw [obj_setObj_ne s h h' o hh]; exact her
+  · intro id' h1 h2 hm1 hm2; exact hi.uniq id' h1 h2 hm1 hm2
 
 end Ss
